@@ -50,6 +50,11 @@ def wrap(orig, stats):
         try:
             t = orig(parser, events)
             stats.setdefault('_texts', {})[id(window[-1])] = None if t is None else str(t)
+            # the window a caller sees is the trace's own event list: where the decoder hands out another list than the one
+            # it was given, that list is what is reported
+            kt = getattr(t, 'ktraces', None)
+            if isinstance(kt, (list, tuple)) and [id(x) for x in kt] != [id(x) for x in window]:
+                return Rec(list(kt))
         except Exception as ex:          # decoder trouble is C07's subject, not pairing's
             stats[type(ex).__name__] = stats.get(type(ex).__name__, 0) + 1
         return Rec(window)
